@@ -53,7 +53,7 @@ def symbolic_function(
 
     @wraps(function)
     def wrapper(*args, **kwargs) -> Optional[Any]:
-        all_kwargs = merge_args_and_kwargs(function, args, kwargs)
+        all_kwargs = merge_args_and_kwargs(function, args, kwargs, ignore_first=False)
         if _any_of_the_kwargs_is_a_variable(all_kwargs):
             return Variable(
                 _name__=function.__name__,
